@@ -118,7 +118,7 @@ theorem actionF2_of_static {env : Env} {T : Nat} {a : Action} (h : Quiet.StaticA
 
 theorem histF2_of_static {env : Env} : ∀ (acts : List Action) (T : Nat), (∀ a, a ∈ acts → Quiet.StaticAction env a) → HistF2 env T acts
   | [], _, _ => trivial
-  | a :: as, T, h => ⟨actionF2_of_static (h a List.mem_cons_self), histF2_of_static as _ (fun b hb => h b (List.mem_cons_of_mem _ hb))⟩
+  | a :: as, _, h => ⟨actionF2_of_static (h a List.mem_cons_self), histF2_of_static as _ (fun b hb => h b (List.mem_cons_of_mem _ hb))⟩
 
 /-- **C11 for the static core** (the histories of `C01History`) -/
 theorem history_audit_static {env : Env} {N : Nat} {d : Bool} {acts : List Action} {s : State} {tk : Array Nat}
